@@ -30,11 +30,14 @@ type Repo = radicle::storage::git::Repository;
 
 // ------------------------------------------------------------------ world
 
+/// The template: two peers (alice: delegate, bob) with a clone of the same repository.
 struct World {
     alice: Node,
     bob: Node,
-    arepo: NodeRepo,
-    brepo: Repo,
+    /// kept alive: the template repositories
+    _arepo: NodeRepo,
+    apath: std::path::PathBuf,
+    bpath: std::path::PathBuf,
     rid: RepoId,
     base: git::Oid,
     head: git::Oid,
@@ -55,6 +58,19 @@ fn set_time(t: u64) {
 
 const T0: u64 = 1_700_000_000;
 
+fn copy_dir(src: &std::path::Path, dst: &std::path::Path) {
+    std::fs::create_dir_all(dst).unwrap();
+    for e in std::fs::read_dir(src).unwrap() {
+        let e = e.unwrap();
+        let to = dst.join(e.file_name());
+        if e.file_type().unwrap().is_dir() {
+            copy_dir(&e.path(), &to);
+        } else {
+            std::fs::copy(e.path(), &to).unwrap();
+        }
+    }
+}
+
 impl World {
     fn new() -> Self {
         set_time(T0);
@@ -68,33 +84,42 @@ impl World {
         let base: git::Oid = arepo.raw().find_commit(*head).unwrap().parent_id(0).unwrap().into();
         bob.clone(rid, &alice);
         let brepo = bob.storage.repository(rid).unwrap();
-        World { alice, bob, arepo, brepo, rid, base, head }
+        let apath = arepo.raw().path().to_path_buf();
+        let bpath = brepo.raw().path().to_path_buf();
+        World { alice, bob, _arepo: arepo, apath, bpath, rid, base, head }
     }
+}
 
-    /// Remove every patch/issue ref (of every namespace) from both storages and re-sign
-    /// each peer's own refs: both repositories are back to the state after the clone.
-    fn reset(&self) {
-        for (repo, node) in [(&*self.arepo, &self.alice), (&self.brepo, &self.bob)] {
-            let names: Vec<String> = repo
-                .raw()
-                .references_glob("refs/namespaces/*/refs/cobs/*")
-                .unwrap()
-                .filter_map(|r| r.ok().and_then(|r| r.name().map(|s| s.to_string())))
-                .collect();
-            timed("reset-delete", || for n in names {
-                if n.contains("xyz.radicle.patch") || n.contains("xyz.radicle.issue") {
-                    repo.raw().find_reference(&n).unwrap().delete().unwrap();
-                }
-            });
-            timed("reset-sign", || repo.sign_refs(&node.signer).unwrap());
+/// A private copy of the two template repositories for one case: every case starts
+/// from exactly the same state.
+struct CaseRepos {
+    _tmp: tempfile::TempDir,
+    arepo: Repo,
+    brepo: Repo,
+    apk: radicle::crypto::PublicKey,
+    bpk: radicle::crypto::PublicKey,
+}
+
+impl CaseRepos {
+    fn new(w: &World) -> Self {
+        let tmp = tempfile::tempdir().unwrap();
+        let a = tmp.path().join("alice");
+        let b = tmp.path().join("bob");
+        copy_dir(&w.apath, &a);
+        copy_dir(&w.bpath, &b);
+        CaseRepos {
+            arepo: Repo::open(&a, w.rid).unwrap(),
+            brepo: Repo::open(&b, w.rid).unwrap(),
+            _tmp: tmp,
+            apk: *w.alice.signer.public_key(),
+            bpk: *w.bob.signer.public_key(),
         }
     }
-
     fn sync_bob_from_alice(&self) -> Vec<RefUpdate> {
-        fetch_namespace(&self.brepo, &self.arepo, self.alice.signer.public_key())
+        fetch_namespace(&self.brepo, &self.arepo, &self.apk)
     }
     fn fetch_alice_from_bob(&self) -> Vec<RefUpdate> {
-        fetch_namespace(&self.arepo, &self.brepo, self.bob.signer.public_key())
+        fetch_namespace(&self.arepo, &self.brepo, &self.bpk)
     }
 }
 
@@ -122,7 +147,12 @@ fn fetch_namespace(dst: &Repo, src: &Repo, ns: &radicle::crypto::PublicKey) -> V
         opts.remote_callbacks(callbacks);
         let url = format!("file://{}", src.raw().path().display());
         let mut remote = dst.raw().remote_anonymous(&url).unwrap();
+        let t = std::time::Instant::now();
         remote.fetch(&[refspec], Some(&mut opts), None).unwrap();
+        if std::env::var("HW_TIMES").is_ok() && t.elapsed().as_millis() > 300 {
+            let st = remote.stats();
+            eprintln!("slow fetch {:?}: objects total {} received {} local {}", t.elapsed(), st.total_objects(), st.received_objects(), st.local_objects());
+        }
     }
     updates
 }
@@ -947,9 +977,9 @@ where
 
 fn one_case(run: &mut Run, w: &World, id: &str, r: &mut Rng, len: u64) {
     run.eval();
-    timed("reset", || w.reset());
+    let cr = timed("copy-repos", || CaseRepos::new(w));
     let db: StoreWriter = Store::<Write>::memory().unwrap().with_migrations(migrate::ignore).unwrap();
-    let arepo: &Repo = &w.arepo;
+    let arepo: &Repo = &cr.arepo;
     let mut s = Stores {
         pc: patch::Cache::open(patch::Patches::open(arepo).unwrap(), db.clone()),
         pd: patch::Cache::no_cache(arepo).unwrap(),
@@ -1090,12 +1120,12 @@ fn one_case(run: &mut Run, w: &World, id: &str, r: &mut Rng, len: u64) {
             }
         } else {
             // bob works in his own storage, alice fetches from him, the fetch writes the cache
-            timed("sync-bob", || w.sync_bob_from_alice());
+            timed("sync-bob", || cr.sync_bob_from_alice());
             let before: BTreeMap<String, Value> = ps.iter().chain(is.iter()).cloned().collect();
             let k = 1 + r.below(3);
             {
-                let mut bp = patch::Cache::no_cache(&w.brepo).unwrap();
-                let mut bi = issue::Cache::no_cache(&w.brepo).unwrap();
+                let mut bp = patch::Cache::no_cache(&cr.brepo).unwrap();
+                let mut bi = issue::Cache::no_cache(&cr.brepo).unwrap();
                 for _ in 0..k {
                     let n = ctx.tick();
                     let bps: Vec<(String, Value)> = bp.list().unwrap().filter_map(|r| r.ok()).map(|(i, p)| (i.to_string(), json!(p))).collect();
@@ -1145,7 +1175,7 @@ fn one_case(run: &mut Run, w: &World, id: &str, r: &mut Rng, len: u64) {
                     }
                 }
             }
-            let ups = timed("fetch-alice", || w.fetch_alice_from_bob());
+            let ups = timed("fetch-alice", || cr.fetch_alice_from_bob());
             let mut dbw = db.clone();
             match radicle_node::worker::fetch::verif::cache_cobs(&w.rid, &ups, arepo, &mut dbw) {
                 Ok(()) => {}
